@@ -23,13 +23,16 @@ class Crashes(Part):
         r = tlc.run("Store", STORE_CFG % (7, "batched-commit"), ctx.scratch, workers=4, name="Store-dev-batched")
         if not r.violated:
             raise tlc.MachineryError("the batched-commit deviation no longer violates the crash model")
+        r = tlc.run("Store", STORE_CFG % (6, "journal-off"), ctx.scratch, workers=4, name="Store-dev-journal-off")
+        if r.violated != "CrashAtomic":
+            raise tlc.MachineryError("the journal-off deviation no longer violates CrashAtomic (got %s)" % r.violated)
         return runs
 
     def cases(self, ctx):
         rng = ctx.rng
         cases = []
         self.dry_error = {}
-        scenarios = ["serial", "contended", "parallel", "nsga2", "bulk"] + ([] if ctx.quick else ["epsmoea"])
+        scenarios = self.scenarios(ctx)
         for sc in scenarios:
             seed = rng.randrange(1 << 30)
             total = self.count_points(ctx, sc, seed)
@@ -37,7 +40,7 @@ class Crashes(Part):
                 cases.append({"kind": "dry", "scenario": sc, "k": 0, "seed": seed, "total": 0, "what": self.dry_error.get(sc, "?")})
                 continue
             ks = list(range(1, total + 2))
-            if sc == "bulk":
+            if sc.startswith("bulk"):
                 # a transaction larger than SQLite's page cache: crash inside the final sync_all (its upserts are the last points)
                 last = list(range(max(1, total - 1100), total + 1))
                 ks = sorted(rng.sample(last, 5 if ctx.quick else 60) + [total - 1, total])
@@ -47,10 +50,15 @@ class Crashes(Part):
             for k in ks:
                 cases.append({"kind": "point", "scenario": sc, "k": k, "seed": seed, "total": total})
         for _ in range(10 if ctx.quick else 300):
-            cases.append({"kind": "sigkill", "scenario": rng.choice(["parallel", "nsga2", "serial"]), "delay": rng.uniform(0.0, 0.25),
+            cases.append({"kind": "sigkill", "scenario": rng.choice(self.sigkill_scenarios), "delay": rng.uniform(0.0, 0.25),
                           "seed": rng.randrange(1 << 30)})
         self.results = self.run_all(ctx, cases)
         return cases
+
+    def scenarios(self, ctx):
+        return ["serial", "contended", "parallel", "nsga2", "bulk"] + ([] if ctx.quick else ["epsmoea"])
+
+    sigkill_scenarios = ["parallel", "nsga2", "serial"]
 
     def count_points(self, ctx, sc, seed):
         db = os.path.join(ctx.scratch, "c11-count-%s.sqlite" % sc)
